@@ -98,6 +98,12 @@ theorem locale_cache_consistent (c0 : Cache) (scripts : Nat → List Nat) (c : S
   rw [r1] at r2
   rw [e1, e2, Option.some.inj r2]
 
+/-- the first critical section of `gp_locale` (lookup only) is a `getOrCreate` that changes nothing when it hits, and
+does nothing when it misses (the call then runs the second section, which is `getOrCreate`): the two-section code
+has the linearization points of the one-section model -/
+theorem lookup_hit_is_getOrCreate (c : Cache) (k v : Nat) (h : c.table.lookup k = some v) : getOrCreate c k = (c, v) := by
+  simp [getOrCreate, h]
+
 /-- **C14 (counters).** Atomic increments from any number of threads, in any order, are all counted. -/
 theorem counters_exact (c0 c : Ctr) (hr : Ctr.Reach c0 c) (hdone : c.rem.sum = 0) : c.count = c0.count + c0.rem.sum := by
   have := ctr_reach c0 c hr; omega
